@@ -27,6 +27,8 @@ __all__ = [
     "Proc",
     "Recorder",
     "Replier",
+    "front_stage",
+    "FRONT_STAGES",
     "ConstantLatency",
     "ExponentialLatency",
     "Duration",
@@ -43,7 +45,9 @@ __all__ = [
 ]
 
 # positive, awkward latencies: not representable exactly, sub-microsecond, thirds
-HOSTILE_LATS = [0.001, 0.0123456789, 1e-6, 0.000333333, 0.05, 0.1, 0.007, 1e-9, 0.25, 0.0021]
+HOSTILE_LATS = [0.001, 0.0123456789, 1e-6, 0.000333333, 0.05, 0.1, 0.007, 1e-9, 0.25, 0.0021, 0.0003, 0.3, 0.29, 2.01, 0.03, 0.015]
+# structural counts (subscribers, backends, replicas, shards, workers, steps ...)
+HOSTILE_COUNTS = [1, 2, 3, 5, 9, 10, 11, 12]
 DEFAULT_LATS = [0.0123456789, 0.003, 0.000333333, 0.05, 0.007, 0.0021, 0.001, 0.02]
 
 
@@ -64,6 +68,7 @@ class P:
     arrivals_ns  explicit arrival instants in ns (several on one ns = burst)
     lats         list of positive latencies (s); `lat(i)` hands them out cyclically so
                  every latency knob of a component gets a non-zero (and different) value
+    counts       list of structural counts; `count(i, default)` (subscribers, backends, shards ...)
     cap          capacity / concurrency / pool size (smaller than the burst = contention)
     hold         positive time a holder keeps a lock / resource / connection (s)
     end          end_time of the simulation (s)
@@ -98,6 +103,16 @@ class P:
 
     def cap(self, default: int = 2) -> int:
         return max(1, int(self.d.get("cap", default)))
+
+    def count(self, i: int = 0, default: int = 3, lo: int = 1, hi: int = 12) -> int:
+        """i-th structural count (number of subscribers / backends / replicas / shards / steps ...).
+
+        Taken cyclically from params["counts"] (drawn from {1, 2, 3, 5, 9, 10, 11, 12}); `default`
+        when the case gives none; clamped to [lo, hi] for components that need a minimum (a quorum).
+        """
+        cs = self.d.get("counts")
+        v = int(cs[i % len(cs)]) if cs else int(default)
+        return max(lo, min(hi, v))
 
     def hold(self, default: float = 0.0100001) -> float:
         v = float(self.d.get("hold", default))
@@ -143,6 +158,7 @@ def hostile_params(rng: random.Random, tier: str = "quick") -> dict:
     return {
         "arrivals_ns": arr,
         "lats": [float(f"{v:.12g}") for v in lats],
+        "counts": [rng.choice(HOSTILE_COUNTS) for _ in range(3)],
         "cap": rng.choice([1, 1, 2, 2, 3, 5]),
         "hold": float(f"{rng.choice(HOSTILE_LATS) * rng.choice([1, 2, 10]):.12g}"),
         "end": rng.choice([5.0, 10.0, 30.0, 60.0]),
@@ -260,6 +276,52 @@ class Replier(Entity):
     @property
     def stats(self):
         return {"received": self.received, "completed": self.completed}
+
+
+# ----------------------------------------------------------------------
+# composition: a delaying / queueing stage in front of the component under test
+
+
+FRONT_STAGES = ("server_queue", "conveyor", "rate_limited", "inductor", "link", "none")
+
+
+def front_stage(kind: str, p: "P", downstream, lat_index: int = 0, name: str = "front"):
+    """(entry entity, [entities to register]) of a stage that delays each request and forwards its
+    *context* (so `created_at` is the original creation time) to `downstream`.
+
+    server_queue  Server(concurrency=1, service=lat): the k-th request of a burst arrives k*lat late
+    conveyor      ConveyorBelt(transit_time=lat)
+    rate_limited  RateLimitedEntity(TokenBucket 1 token / lat): queues the burst, forwards `forward::<type>`
+    inductor      Inductor(time_constant=lat)
+    link          NetworkLink(latency=lat, jitter=lat/4) with egress=downstream
+    none          no stage (entry is `downstream`)
+    """
+    lat = p.lat(lat_index)
+    if kind == "none":
+        return downstream, []
+    if kind == "server_queue":
+        from happysimulator.components.server import Server
+
+        e = Server(name, concurrency=1, service_time=ConstantLatency(lat), downstream=downstream)
+    elif kind == "conveyor":
+        from happysimulator.components.industrial import ConveyorBelt
+
+        e = ConveyorBelt(name, downstream=downstream, transit_time=lat)
+    elif kind == "rate_limited":
+        from happysimulator.components.rate_limiter import RateLimitedEntity, TokenBucketPolicy
+
+        e = RateLimitedEntity(name, downstream=downstream, policy=TokenBucketPolicy(capacity=1.0, refill_rate=1.0 / lat))
+    elif kind == "inductor":
+        from happysimulator.components.rate_limiter import Inductor
+
+        e = Inductor(name, downstream=downstream, time_constant=lat)
+    elif kind == "link":
+        from happysimulator.components.network import NetworkLink
+
+        e = NetworkLink(name, latency=ConstantLatency(lat), jitter=ExponentialLatency(lat / 4), egress=downstream)
+    else:
+        raise KeyError(kind)
+    return e, [e]
 
 
 # ----------------------------------------------------------------------
